@@ -279,10 +279,15 @@ def timeZero : Int := -62135596800 * 1000000000
 def timeUnix (sec : Int) : Int := effSec sec * 1000000000
 /-- `t.Unix()` of a time built by `timeUnix` / of the clock -/
 def timeToUnix (t : Time) : Int := t / 1000000000
+/-- `*t` / a method call on a `*time.Time`: nil is a panic -/
+def derefTime (t : Option Int) : M Int :=
+  match t with
+  | some x => pure x
+  | none => throw "invalid memory address or nil pointer dereference"
 def timeMinute : Int := 60 * 1000000000
 def timeSecond : Int := 1000000000
 /-- `t.Truncate(d)`: rounds down to a multiple of `d` since the zero time (`d ≤ 0` returns `t`) -/
-def timeTruncate (t : Time) (d : Int) : Time :=
+def timeTruncate (t : Int) (d : Int) : Int :=
   if d ≤ 0 then t else t - (t - timeZero) % d
 
 end O2P.Go
